@@ -25,6 +25,8 @@ import common
 PROP = "C06"
 
 
+_LABEL_TURN = [0]      # rotates the label values handed to refine_assigned
+
 def frac_inv(m):
     """inverse of a 3x3 matrix of Fractions (None if singular)"""
     a = [[F(x) for x in row] for row in m]
@@ -291,12 +293,17 @@ def judge(case, rt, reps=1, perturb=None, S=None):
             probs.append("score_and_refine: refined matrix %s differs from inverse(R H^-1) = %s" % (
                 u.tolist(), [[float(x) for x in r] for r in eu]))
     # --- refine_assigned over the labelled peaks
-    labels = np.tile(np.array([7 if p["lab"] else 3 for p in pk], np.int32), reps)
+    # the label VALUE is arbitrary int32 (label 0 is a real grain for several callers, -1 means "no grain yet" and is
+    # a natural thing to ask for): the pair (selected, other) rotates from case to case
+    LABEL_PAIRS = [(7, 3), (0, -1), (-1, 0), (-2, 5), (2147483647, -2147483648), (1, 0), (3, 7), (-2147483648, -1)]
+    _LABEL_TURN[0] += 1
+    lsel, loth = LABEL_PAIRS[_LABEL_TURN[0] % len(LABEL_PAIRS)]
+    labels = np.tile(np.array([lsel if p["lab"] else loth for p in pk], np.int32), reps)
     u3 = ubi.copy()
-    n3, s3 = c.refine_assigned(u3, gv, labels, 7)
+    n3, s3 = c.refine_assigned(u3, gv, labels, lsel)
     nl = case["nl"] * reps
     if n3 != nl:
-        probs.append("refine_assigned: npk=%d, definition %d" % (n3, nl))
+        probs.append("refine_assigned(label %d, others %d): npk=%d, definition %d" % (lsel, loth, n3, nl))
     exp3 = (case["ssl"] / 4096.0 / case["nl"]) if case["nl"] else 0.0
     if abs(s3 - exp3) > 1e-12 * max(1.0, exp3):
         probs.append("refine_assigned: mean squared error %r, definition %r" % (s3, exp3))
@@ -370,6 +377,53 @@ def report(chk, probs, case, reps):
         tag = (" [cell scaled by 2^%s]" % (S,) if any(S) else "") + (" [hkl x%d]" % case["hscale"] if case.get("hscale") else "") \
             + (" [peak list tiled x%d]" % reps if reps > 1 else "")
         chk.violation(p + tag, dict(case, reps_list=[reps]))
+
+
+OMP_ENVS = [{"OMP_NUM_THREADS": "8", "OMP_THREAD_LIMIT": "3"},         # the team is smaller than omp_get_max_threads()
+            {"OMP_NUM_THREADS": "16", "OMP_DYNAMIC": "true"},          # the runtime may hand out fewer threads than asked
+            {"OMP_NUM_THREADS": "5", "OMP_SCHEDULE": "dynamic,1", "OMP_THREAD_LIMIT": "2"},
+            {"OMP_NUM_THREADS": "1"}]
+
+
+def openmp_environments(chk, cases, rng, quick):
+    """configurations: the kernels' results may not depend on how many threads the OpenMP runtime really delivers.  A seeded
+    set of regular cases tiled to long lists (several 4096-peak chunks per delivered thread) is judged in child processes
+    started under OpenMP environments in which the team size differs from omp_get_max_threads()"""
+    import subprocess
+    pool = [c for c in cases if len(c["peaks"]) and c["n"] > 0 and c["detH"] != 0]
+    if not pool:
+        return
+    pick = [pool[int(i)] for i in rng.choice(len(pool), size=min(len(pool), 4 if quick else 12), replace=False)]
+    items = []
+    for c in pick:
+        npk = len(c["peaks"])
+        for reps in (4096 // npk + 1, 40000 // npk, 100000 // npk):
+            items.append([c, reps])
+    d = common.scratch()
+    cpath = os.path.join(d, "c06_env_cases.json")
+    json.dump(items, open(cpath, "w"))
+    child = os.path.join(os.path.dirname(os.path.dirname(os.path.abspath(__file__))), "c06_child.py")
+    done = {}
+    for k, envx in enumerate(OMP_ENVS):
+        env = dict(os.environ)
+        for v in ("OMP_NUM_THREADS", "OMP_THREAD_LIMIT", "OMP_DYNAMIC", "OMP_SCHEDULE"):
+            env.pop(v, None)
+        env.update(envx)
+        opath = os.path.join(d, "c06_env_out_%d.json" % k)
+        p = subprocess.run([common.PY, child, cpath, opath], env=env, stdout=subprocess.PIPE, stderr=subprocess.PIPE, text=True,
+                           timeout=1800)
+        tag = " ".join("%s=%s" % kv for kv in sorted(envx.items()))
+        if p.returncode != 0 or not os.path.exists(opath):
+            raise common.MachineryError("C06 child under %s failed rc=%s: %s" % (tag, p.returncode, p.stderr[-1500:]))
+        res = json.load(open(opath))
+        for idx, probs in res["results"]:
+            case, reps = items[idx]
+            chk.case(("ompenv", k, idx))
+            chk.traces += 1
+            report(chk, ["[OpenMP environment %s] %s" % (tag, q if isinstance(q, str) else q[1]) for q in probs
+                         if isinstance(q, str) or q[0] != "finding"], case, reps)
+        done[tag] = len(res["results"])
+    chk.notes["openmp_environments"] = done
 
 
 def load_scales(tier):
@@ -498,6 +552,7 @@ def run(tier, replay=None):
             st[0 if case["detH"] == 0 else 1] += 1
         if idx == 4000:
             chk.sample(case)
+    openmp_environments(chk, cases, rng, quick)
     chk.notes["singular_nonempty_cases"] = nsing
     chk.notes["refined_cases"] = nref
     chk.notes["per_scale_singular_regular"] = per_scale
